@@ -26,7 +26,7 @@ impl C01 {
 }
 
 pub fn build_cases(tier: Tier) -> Vec<CaseSpec> {
-    crate::corpus::ref_cases(tier)
+    crate::corpus::ref_cases_c01(tier)
 }
 
 pub const OPTS: [&str; 2] = ["-O1", "-O0"];
@@ -127,7 +127,7 @@ impl Check for C01 {
         "exploration"
     }
     fn rule(&self) -> String {
-        "Programs are enumerated exhaustively from typed grammars (families F1..; alphabets and depth in 'bounds'), smallest first; each is compiled by the real compile() at -O1 and -O0, assembled by an independent encoder and executed on an independent 6502 emulator from every input state of the enumerated domain; final memory, X and Y are compared with a reference interpreter of C (two admissible dialects for 8-bit intermediates). A case is non-trivial when the reference final state differs between at least two of its inputs; distinct = distinct (family, options, source text).".into()
+        "Programs are enumerated exhaustively from typed grammars (families F1.. and the programs of the repository's own tests, F0.pinned; alphabets, depth and per-family counts in 'bounds'), smallest first; each is compiled by the real compile() at -O1 and -O0, assembled by an independent encoder and executed on an independent 6502 emulator from every input state of the enumerated domain; final memory, X and Y are compared with a reference interpreter of C (two admissible dialects for 8-bit intermediates). A case is non-trivial when the reference final state differs between at least two of its inputs; distinct = distinct (family, options, source text).".into()
     }
     fn assumptions(&self) -> Vec<String> {
         vec![
